@@ -14,9 +14,16 @@ def run(ctx):
     if not q:
         T += [('d2.h4.n3', D(2, 4, 3, 1), [-4, -1, 0, -2, 0, 0], 2400, ''), ('d3.h3.n3', D(3, 3, 3, 1), [-3, -1, 0, -1, 0, 0], 2400, ''), ('d1.h6.n4', D(1, 6, 4, 1), [-5, -1, 0, -2, 0, 0], 1800, '')]
     ctx.bounds.update(dict(trees='Dim 1-3, heights 3-5 (6 thorough), 2-3 particles (4 thorough), block sizes 1..N+1, both modes, upper level {2,0}',
-                           executors='sequential executor; per-worker merge under the OpenMP executor is covered by C03',
+                           executors='sequential executor; OpenMP executor with per-worker counter kernels under the mock runtime of C03 (4 threads, three schedules / worker-id policies)',
                            outside='the counter cannot be used with the target/source executor (its P2PTsm does not instantiate) - see DESIGN.md section 8 F8'))
     ctx.assumptions += ASSUME
     run_specs(ctx, 'w_tree.cpp', 'h_c18', T, expect_reach=(200, 201, 202, 205, 206, 207, 208))
     run_specs(ctx, 'w_tree.cpp', 'h_c18_reduce', [('reduce.symbolic', D(1, 2, 2, 1), [0, 0, 0, 0, 0, 0], 60, 'Counters::Reduce with 2-4 workers, every counter field an independent 64-bit symbol, forked merge orders')], expect_reach=(209, 210))
+    from .C03 import OMP
+    from .. import e2
+    e2.run_configs(ctx, [dict(name='omp.d1.h4.n3', wrapper='w_omp.cpp', defines=D(1, 4, 3, 1), entry='h_c18_omp', args=[-2, -1, 0, -1, 0, 0], time_limit=240,
+                               note='per-worker counter kernels under the OpenMP executor (mock runtime, 3 schedules, worker ids all-0 / round robin / reversed over 4 threads), merged as documented',
+                               expect_reach=(610, 611), hook_opts=dict(omp_threads=4, no_native_replay=True), diff=0, **OMP),
+                          dict(name='omp.d2.h3.n2', wrapper='w_omp.cpp', defines=D(2, 3, 2, 1), entry='h_c18_omp', args=[2, -1, 0, -1, 0, 0], time_limit=240, note='',
+                               expect_reach=(610, 611), hook_opts=dict(omp_threads=4, no_native_replay=True), diff=0, **OMP)])
     return finish(ctx, TEXT)
